@@ -264,7 +264,7 @@ inline int replay_main(F run_serialised) {
     Ctx &c = ctx();
     std::string s = read_file(c.replay_file);
     if(s.empty()) { fprintf(stderr, "replay: cannot read %s\n", c.replay_file.c_str()); return 2; }
-    arm_watchdog(c.cpu_budget_s * 10);
+    arm_watchdog(c.cpu_budget_s * 3);
     try {
         run_serialised(s);
     } catch(const Fail &f) {
